@@ -13,7 +13,7 @@ CMP_BR = ['beq', 'bne', 'blt', 'ble', 'bgt', 'bge', 'ublt', 'ubge', 'beqs', 'bne
 CMP_SET = ['eq', 'ne', 'lt', 'le', 'gt', 'ge', 'ult', 'uge']
 
 
-def cfg_function(rng, fname, mod, nblocks=None, shape=None, callee=None):
+def cfg_function(rng, fname, mod, nblocks=None, shape=None, callee=None, alloca=False):
     """-> lines of one function.  shape: None (random edges) | 'irreducible' (a natural loop plus a branch from
     before the loop into the middle of its body) | 'nested' (reducible nest)"""
     k = nblocks or rng.choice([2, 3, 4, 5, 6, 8, 10, 14])
@@ -72,6 +72,11 @@ def cfg_function(rng, fname, mod, nblocks=None, shape=None, callee=None):
         L.append('B%s_%d:' % (fname, i))
         if i in needs_fuel:
             L += ['  sub fuel, fuel, 1', '  ble X%s, fuel, 0' % fname]
+        if alloca and rng.random() < 0.3:
+            # an alloca after a label (never a top alloca): a function inlined with it is copied in place between
+            # BSTART/BEND, its rets in the middle become jumps to the end of the copy
+            s1 = rng.choice(regs)
+            L += ['  alloca t, %d' % rng.choice([8, 16, 48]), '  mov i64:(t), %s' % s1, '  mov %s, i64:(t)' % rng.choice(regs)]
         for _ in range(rng.choice([0, 1, 1, 2, 3, 5])):
             q = rng.random()
             d, s1, s2 = rng.choice(regs), rng.choice(regs), rng.choice(regs + [str(rng.randrange(1, 1000)), str(rng.getrandbits(40))])
@@ -123,7 +128,8 @@ def cfg_module(rng, name, shape=None):
     helpers = []
     for h in range(rng.choice([0, 0, 1, 2])):
         hn = 'h%s_%d' % (name, h)
-        L += cfg_function(rng, hn, name, shape=shape if h == 0 else None)
+        # helpers (they are called and inlined) have allocas in their blocks in half of the modules
+        L += cfg_function(rng, hn, name, shape=shape if h == 0 else None, alloca=rng.random() < 0.5)
         helpers.append(hn)
     callee = rng.choice(helpers) if helpers else None
     body = cfg_function(rng, 'f' + name, name, shape=shape, callee=callee)
